@@ -333,6 +333,9 @@ func markSites(e *Expr, inLambda bool) {
 // calleeFor picks a method name for a receiver of the given simple type.
 func (b *bodyCtx) calleeFor(ty string) string {
 	r := b.g.r
+	if b.g.hot != nil && b.g.hotM != "" && ty == b.g.hot.Simple && r.Chance(b.g.o.HotBias, 10) {
+		return b.g.hotM
+	}
 	if t := resolvesTo(b.g, b.ti, ty); t != nil && r.Chance(4, 5) {
 		ms := t.Decl.Methods()
 		var cands []string
